@@ -278,6 +278,23 @@ def generate(prop, run_seed, tier):
         stmts = [cand[rng.randrange(len(cand))] for _ in range(rng.choice([2, 3, 4]))]
         scripts = [[{"op": "generate", "sql": q, "read": d, "write": wd, "opts": opts} for d, q in (stmts[rng.randrange(len(stmts))] for _ in range(rng.choice([2, 3, 4])))]
                    for _ in range(n)]
+    elif warm and rng.random() < 0.25:
+        # micro contention: one small public entry point (a few dozen lines: time-format conversion, JSON path parsing,
+        # identifier normalisation, table / type parsing, dialect settings, schema lookups on one shared MappingSchema), a few
+        # popular arguments asked for again and again by most threads, and - usually - one thread streaming hundreds of
+        # distinct arguments through the same entry point, which drives any bounded memo past its capacity meanwhile
+        from sim.threadsim.child import MICRO_KINDS
+
+        what = rng.choice(MICRO_KINDS)
+        md = rng.choice([None, "duckdb", "snowflake", "bigquery", "postgres", "mysql", "spark", "tsql", "oracle", "clickhouse", "presto", "hive"])
+        scripts = []
+        extra = {"shared_schema": True, "schema": "xyz"} if what == "column_names" else {}
+        for ti in range(n):
+            if ti == 0 and rng.random() < 0.7:
+                scripts.append([{"op": "bulk", "what": what, "dialect": md, "start": 10, "n": rng.choice([60, 150, 300, 300, 600]), **extra}])
+            else:
+                pop = [rng.randrange(4) for _ in range(2)]
+                scripts.append([{"op": "micro", "what": what, "dialect": md, "i": pop[rng.randrange(2)], **extra} for _ in range(rng.choice([3, 5, 8]))])
     elif not warm and rng.random() < 0.06:
         # registry-shaped run: one thread loads (nearly) every dialect, another enumerates the registry, the others first-use
         # the dialects that were left out
@@ -297,6 +314,7 @@ def generate(prop, run_seed, tier):
         "mean_gap": (rng.choice([3, 10, 30, 100, 300, 1000]) if warm else rng.choice([30, 300, 3000, 30000, 300000])) if strat == "random" else rng.choice([30000, 300000, 3000000]),
         "pct_depth": rng.choice([1, 2, 3]),
         "p_cold": rng.choice([0.02, 0.1, 0.3]) if strat == "cold" else 0.0,
+        "p_pub": rng.choice([0.0, 0.3, 0.7]) if (strat in ("random", "cold") and not warm) else 0.0,
         "gc_rate": rng.choice([0.0, 0.0, 0.05]),
     }
     return {"engine": "threadsim", "config": cfg, "scripts": scripts}
@@ -344,7 +362,8 @@ def execute(record, state):
     r = tp.run(hs, {"record": record, "log_events": bool(cfg.get("log_events"))}, timeout=150)
     faults = {"preemptions": 0, "forced_switch_on_lock": 0, "gc_injected": 0, "starvation_pct": 0, "hashseed_nonzero": 1 if hs else 0}
     probes = {"switch_in_cold_code": 0, "switch_inside_dialect_class_init": 0, "switch_inside_import": 0, "switch_inside_dispatch_build": 0,
-              "switch_inside_optimizer_getattr": 0, "parked_on_import_lock": 0, "parked_on_other_lock": 0, "two_threads_same_cold_dialect": 0}
+              "switch_inside_optimizer_getattr": 0, "parked_on_import_lock": 0, "parked_on_other_lock": 0, "two_threads_same_cold_dialect": 0,
+              "publication_switches": 0}
     if r.get("timeout"):
         # A wall-clock limit depends on machine load, so it is never an oracle: the run is discarded and counted by the
         # driver (runs_discarded_by_resource_guard). Hangs the simulator can see are reported deterministically instead:
